@@ -137,6 +137,18 @@ def obs_console(report, f):
     return parse_console(buf.getvalue())
 
 
+def obs_from_suites(report, f):
+    """ReportStats.from_suites on the filtered suites, called directly (also reaches the empty list: IndexError)."""
+    from lemoncheesecake.reporting import ReportStats
+    from lemoncheesecake.testtree import filter_suites
+    try:
+        st = ReportStats.from_suites(filter_suites(report.get_suites(), make_filter(f)), report.parallelized)
+    except Exception as e:
+        return _exc(e)
+    return ["ok", st.tests_nb, [st.tests_nb_by_status[s] for s in STATUSES], _ms(st.duration), _ms(st.duration_cumulative),
+            st.tests_enabled_nb]
+
+
 def obs_console_cli(report, f, tmp):
     """The same through the command line on a report saved by the json backend."""
     from lemoncheesecake.reporting.backends.json_ import save_report_into_file
@@ -177,7 +189,7 @@ def obs_diff(rep1, rep2, f):
 def observe(desc, tmp, cli=False):
     rep = G.build_report(desc)
     o = {"junit": obs_junit(rep, tmp), "stats": obs_stats(rep), "message": obs_message(rep),
-         "console": [obs_console(rep, f) for f in FILTERS]}
+         "console": [obs_console(rep, f) for f in FILTERS], "fsuites": [obs_from_suites(rep, f) for f in FILTERS]}
     if cli:
         o["cli"] = [obs_console_cli(rep, f, tmp) for f in FILTERS]
     return o
@@ -217,6 +229,14 @@ def _filter_match(f, status):
 
 def _pct(val, of):
     return val * 100 // of if of else 0
+
+
+def _pct_signature(shown, val, of, what):
+    """The known float-rounding symptom is narrow: the exact percentage is an integer and the display is one below it
+    (29/50 -> 57%).  Anything else is a different violation."""
+    if of and (val * 100) % of == 0 and shown == val * 100 // of - 1:
+        return "pct:float-truncation"
+    return "pct:wrong:" + what
 
 
 def oracle(desc, o, producible):
@@ -291,10 +311,12 @@ def oracle(desc, o, producible):
         else:
             wantp = {"passed_pct": _pct(by["passed"], enabled), "failed_pct": _pct(by["failed"], enabled),
                      "skipped_pct": _pct(by["skipped"], enabled), "disabled_pct": _pct(by["disabled"], n)}
-            bad = [k for k in wantp if v[k] != wantp[k]]
-            if bad:
-                yield ("pct:float-truncation", "%s shows %d%% where floor(100*count/of) is %d%% (counts %r)" %
-                       (bad[0], v[bad[0]], wantp[bad[0]], want))
+            ofs = {"passed_pct": ("passed", enabled), "failed_pct": ("failed", enabled), "skipped_pct": ("skipped", enabled),
+                   "disabled_pct": ("disabled", n)}
+            for k in wantp:
+                if v[k] != wantp[k]:
+                    yield (_pct_signature(v[k], by[ofs[k][0]], ofs[k][1], k),
+                           "%s shows %d%% where floor(100*count/of) is %d%% (counts %r)" % (k, v[k], wantp[k], want))
 
     # ---- console
     for key in ("console", "cli"):
@@ -326,8 +348,9 @@ def oracle(desc, o, producible):
                 yield ("console:counts", "console summary (tests, successes, failures, skipped, disabled)=%r, enumeration %r "
                                          "(filter %r)" % (got, want, f))
             elif nums[3] != _pct(wb["passed"], wb["passed"] + wb["failed"] + wb["skipped"]):
-                yield ("pct:float-truncation", "console successes %d%% where floor is %d%%" %
-                       (nums[3], _pct(wb["passed"], wb["passed"] + wb["failed"] + wb["skipped"])))
+                yield (_pct_signature(nums[3], wb["passed"], wb["passed"] + wb["failed"] + wb["skipped"], "console-successes"),
+                       "console successes %d%% where floor is %d%% (filter %r)" %
+                       (nums[3], _pct(wb["passed"], wb["passed"] + wb["failed"] + wb["skipped"]), f))
 
 
 def oracle_diff(desc1, desc2, f, d):
@@ -366,6 +389,55 @@ def oracle_diff(desc1, desc2, f, d):
         yield ("diff:is-empty", "Diff.is_empty() disagrees with its content")
     if (desc1 is desc2 or desc1 == desc2) and everything:
         yield ("diff:self-not-empty", "the diff of a report with itself is not empty")
+
+
+# ----------------------------------------------------------------------------- smaller inputs (case-file size = Coq parsing time)
+def _short(x):
+    """Free texts (descriptions, messages, details, tags, ...) do not influence any view of the outcome: keep their
+    None / empty / non-empty nature and their first characters only."""
+    return x if x is None else x[:3]
+
+
+def slim(desc, keep_steps=True):
+    d = copy.deepcopy(desc)
+
+    def meta(m):
+        m["description"] = _short(m["description"])
+        m["tags"] = [_short(t) for t in m["tags"][:1]]
+        m["properties"] = [[_short(k), _short(v)] for k, v in m["properties"][:1]]
+        m["links"] = [[_short(u), _short(n)] for u, n in m["links"][:1]]
+
+    def result(r):
+        if r is None:
+            return
+        r["status_details"] = _short(r["status_details"])
+        if not keep_steps:
+            r["steps"] = []
+        for st in r["steps"]:
+            st["description"] = _short(st["description"])
+            for l in st["logs"]:
+                if l[0] == "log":
+                    l[2] = _short(l[2])
+                elif l[0] == "check":
+                    l[1], l[3] = _short(l[1]), _short(l[3])
+                else:
+                    l[1], l[2] = _short(l[1]), _short(l[2])
+
+    def suites(ss):
+        for s_ in ss:
+            meta(s_)
+            result(s_["setup"])
+            result(s_["teardown"])
+            for t in s_["tests"]:
+                meta(t)
+                result(t["result"])
+            suites(s_["suites"])
+    d["title"] = _short(d["title"])
+    d["info"] = [[_short(k), _short(v)] for k, v in d["info"][:1]]
+    result(d["setup"])
+    result(d["teardown"])
+    suites(d["suites"])
+    return d
 
 
 # ----------------------------------------------------------------------------- mutation of a description (second report of a diff)
@@ -553,12 +625,18 @@ Definition model_console (r : report) (f : rfilter) : vres cobs :=
            (console_short (rf_truthy f) (rf_apply f) r).
 Definition cobs_eqb : cobs -> cobs -> bool := option_eqb (pair_eqb (list_eqb lnat_eqb) lZ_eqb).
 
+Definition model_fsuites (r : report) (f : rfilter) : vres sobs :=
+  vres_map (fun s => let c := st_by s in
+                     (st_tests_nb s, [n_passed c; n_failed c; n_skipped c; n_disabled c], st_duration s, st_duration_cumulative s))
+           (from_suites (filter_suites (rf_apply f) (rp_suites r)) (parallelized r)).
 Record case := mkC { c_r : report; c_junit : vres jobs; c_stats : vres sobs; c_msg : vres (list Z);
-                     c_cons : list (rfilter * vres cobs) }.
+                     c_cons : list (rfilter * vres cobs); c_fs : list (rfilter * vres sobs) }.
 Definition ok_junit (c : case) := vres_eqb jobs_eqb (model_junit (c_r c)) (c_junit c).
 Definition ok_stats (c : case) := vres_eqb sobs_eqb (model_stats (c_r c)) (c_stats c).
 Definition ok_msg (c : case) := vres_eqb lZ_eqb (model_message (c_r c)) (c_msg c).
-Definition ok_cons (c : case) := forallb (fun fo => vres_eqb cobs_eqb (model_console (c_r c) (fst fo)) (snd fo)) (c_cons c).
+Definition ok_cons (c : case) :=
+  forallb (fun fo => vres_eqb cobs_eqb (model_console (c_r c) (fst fo)) (snd fo)) (c_cons c) &&
+  forallb (fun fo => vres_eqb sobs_eqb (model_fsuites (c_r c) (fst fo)) (snd fo)) (c_fs c).
 
 Definition dt_eqb : dtest -> dtest -> bool := pair_eqb str_eqb status_eqb.
 Record dcase := mkD { d_r1 : report; d_r2 : report; d_f : rfilter; d_add : list dtest; d_rem : list dtest;
@@ -578,9 +656,10 @@ def case_term(desc, o, with_cli):
     cons = list(zip(FILTERS, o["console"]))
     if with_cli and "cli" in o:
         cons += list(zip(FILTERS, o["cli"]))
-    return "mkC (%s)\n (%s)\n (%s)\n (%s)\n %s" % (
+    return "mkC (%s)\n (%s)\n (%s)\n (%s)\n %s\n %s" % (
         G.c_report(desc), c_junit(o["junit"]), c_stats(o["stats"]), c_message(o["message"]),
-        c_list(cons, lambda fo: "(%s, %s)" % (c_filter(fo[0]), c_console(fo[1]))))
+        c_list(cons, lambda fo: "(%s, %s)" % (c_filter(fo[0]), c_console(fo[1]))),
+        c_list(list(zip(FILTERS, o["fsuites"])), lambda fo: "(%s, %s)" % (c_filter(fo[0]), c_stats(fo[1]))))
 
 
 def dcase_term(d1, d2, f, d):
@@ -614,7 +693,7 @@ def parse_lists(out):
 
 def encodable(o):
     """Observations the case file can express (exceptions outside the enum are reported as a broken tie by the caller)."""
-    for x in [o["junit"], o["stats"], o["message"]] + o["console"] + o.get("cli", []):
+    for x in [o["junit"], o["stats"], o["message"]] + o["console"] + o.get("cli", []) + o["fsuites"]:
         if x[0] == "err" and x[1] not in ERRS:
             return "unexpected exception %s" % x[1]
         if x[0] not in ("ok", "err", "none"):
@@ -676,9 +755,9 @@ def _report_hit(run, sig, text, desc, tmp, producible, cli=False):
 def _check(run, tmp):
     rng = run.rng
     quick = run.tier == "quick"
-    n = 160 if quick else 6000
+    n = 240 if quick else 6000
     n_cli = 12 if quick else 300
-    per_file = 40 if quick else 150
+    per_file = 20 if quick else 100
     # 1. witnesses of the known findings: re-observed now, on this tree
     wit_cases = []
     for kf in load_known():
@@ -703,7 +782,16 @@ def _check(run, tmp):
         unfinished = rng.random() < 0.3
         wild = rng.random() < 0.3
         desc = G.gen_report(rng, size, unfinished=unfinished, wild=wild)
+        if i % 10 != 9:
+            desc = slim(desc)          # one report in ten keeps its full texts
         producible = not wild
+        odd = False
+        if wild and rng.random() < 0.25:
+            ts = [t for _, t in G.all_tests(desc)]
+            if ts:
+                rng.choice(ts)["result"]["status"] = rng.choice(["", "bogus", "Passed"])
+                odd = True
+                run.count("reports_with_odd_status")
         with_cli = i < n_cli
         o = observe(desc, tmp, cli=with_cli)
         run.evaluations += 1
@@ -725,8 +813,12 @@ def _check(run, tmp):
         for c in o["console"]:
             if c[0] == "err":
                 run.count("console_raised_%s" % c[1])
-        for sig, text in oracle(desc, o, producible):
-            _report_hit(run, sig, text, desc, tmp, producible, with_cli)
+        for c in o["fsuites"]:
+            if c[0] == "err":
+                run.count("from_suites_raised_%s" % c[1])
+        if not odd:          # a status outside Result.STATUSES is not a report: only the model correspondence is checked
+            for sig, text in oracle(desc, o, producible):
+                _report_hit(run, sig, text, desc, tmp, producible, with_cli)
         bad = encodable(o)
         if bad:
             run.tie_broken("views = model", case={"desc": desc}, detail=bad)
@@ -739,9 +831,10 @@ def _check(run, tmp):
                         "junit_top": o["junit"][:4]})
         # diff: against a mutation, against itself
         if i % 2 == 0:
-            d2 = desc if i % 10 == 0 else mutate(rng, desc)
+            d1 = slim(desc, keep_steps=False)      # compute_diff only looks at paths and statuses
+            d2 = d1 if i % 10 == 0 else slim(mutate(rng, d1), keep_steps=False)
             f = FILTERS[0] if rng.random() < 0.6 else rng.choice(FILTERS[1:])
-            d = obs_diff(G.build_report(desc), G.build_report(d2), f)
+            d = obs_diff(G.build_report(d1), G.build_report(d2), f)
             run.evaluations += 1
             run.count("diff_pairs")
             run.count("diff_added", len(d["added"]))
@@ -749,12 +842,13 @@ def _check(run, tmp):
             run.count("diff_changed", sum(len(g[2]) for g in d["changed"]))
             if d["added"] and d["removed"] and d["changed"]:
                 run.nontrivial.add(("diff", i))
-            for sig, text in oracle_diff(desc, d2, f, d):
-                run.violation(sig, text, {"desc": desc, "desc2": d2, "filter": f, "diff": d})
+            for sig, text in oracle_diff(d1, d2, f, d):
+                run.violation(sig, text, {"desc": d1, "desc2": d2, "filter": f, "diff": d})
             if all(g[0] in ALL_ST and g[1] in ALL_ST for g in d["changed"]):
-                dcases.append(dcase_term(desc, d2, f, d))
-                ddescs.append((desc, d2, f, d))
+                dcases.append(dcase_term(d1, d2, f, d))
+                ddescs.append((d1, d2, f, d))
     # 3. the same inputs through the models, inside Coq
+    run.notes.append("implementation runs + oracles done at +%.1fs" % (time.time() - run.t0))
     if getattr(run, "model_ok", False):
         files, index = [], []
         nd = max(1, per_file // 2)
